@@ -65,6 +65,16 @@ CHECKS["C16"] = dict(cat=MC, engine="E1 xsched (real registry + GC task + access
    text="Connections with every outcome (relayed, relayed with early data, denied, connect failed, aborted mid-transfer, handshake garbage, handshake EOF) run through the real create_context / h11c_handshake / process_request / relay with the real GC task, access log and API handlers; an observer calls /live at every position and a holder task keeps the alive or terminated lock across a scheduling point; after the last end and two GC periods: ids distinct, nothing live, history newest-first and bounded, every connection exactly once in the log, truthful listener/source/target/upstream, lifecycle grammar with exactly one terminal state, byte counters = payload relayed.",
    note="Access-log file I/O runs on tokio's blocking pool (real threads): the closing phase is executed but not branched on. Timestamps not compared. Only the HTTP-style listener path is in memory.",
    ref="DESIGN.md §3 C16")
+CHECKS["C01"] = dict(cat=MC, engine="E1 xsched (real handshake -> routing -> upstream codec -> callbacks -> copy_bidi over scripted endpoints)",
+   technique="stateless exhaustive exploration (deviation bound 1, thorough 2) of schedules, 1-byte segmentations and write windows of the real relay chain for 4 upstream codecs; exact stream equality oracle; two-tunnel isolation",
+   text="For upstream legs spoken by the real direct/HTTP/SOCKS5/SOCKS4 codecs, early data of 0-2 bytes glued to the CONNECT head, 0-2 later client messages, 0-2 origin messages (optionally glued to the upstream's reply), bufferSize 1/2/8 and back-pressure on both sides, every execution within the deviation bound must end with the origin having received exactly upstream-handshake + client payload and the client exactly the 200 head + origin payload; two concurrent tunnels with disjoint alphabets must never see each other's bytes.",
+   note="Upstream legs are harness connectors making the same calls as the real connectors after TCP connect. Few-byte payloads; splice, TLS, multi-MB transfers and the SOCKS/reverse/QUIC listeners need real sockets.",
+   ref="DESIGN.md §3 C01")
+CHECKS["C06"] = dict(cat=MC, engine="E1 xsched (HTTP CONNECT side in memory) + E4 real binary with fake upstream proxies",
+   technique="stateless exhaustive schedule exploration (deviation bound 2, thorough 3) of outcome class x upstream codec with a strict HTTP response parser on the client byte stream; real-socket grid client protocol x route x upstream behaviour with strict SOCKS/HTTP reply parsing and echo round trip",
+   text="In memory: request ok x upstream {direct,http,socks5,socks4} x {accept, connect error, proxy says no, closes mid-handshake} plus denied, no rule, unsupported feature, bad method, bad protocol, bad target: exactly one reply, 200 iff the upstream leg is established, failure replies complete (body = Content-Length) and followed by close, no upstream contact for refused requests. Real sockets: {http, socks5, socks4/4a} x 19 routes through the real connectors against fake upstreams that accept / refuse / say no / close / send garbage, plus BIND, unknown command, UDP not allowed and authentication failures.",
+   note="Kernel scheduling uncontrolled in the E4 part. Fake upstreams are Python servers.",
+   ref="DESIGN.md §3 C06")
 NOT_YET = "check not built yet in this revision (see DESIGN.md §3 for the planned model-checking design)"
 def main():
     checks = []
@@ -98,8 +108,9 @@ def main():
             "add_only": True,
         },
         "engines": [
-            {"name": "E1 xsched", "path": "harness/src/verif/xsched.rs", "serves_properties": ["C14", "C15", "C16"], "kind_free_text": "stateless deviation-bounded DFS over task schedules and scripted environment answers of real async code"},
+            {"name": "E1 xsched", "path": "harness/src/verif/xsched.rs", "serves_properties": ["C01", "C06", "C14", "C15", "C16"], "kind_free_text": "stateless deviation-bounded DFS over task schedules and scripted environment answers of real async code"},
             {"name": "E3 loom", "path": "harness/src/verif/c17.rs", "serves_properties": ["C17"], "kind_free_text": "loom exhaustive interleavings of the real load balancer (feature loomlb => cfg(redproxy_verif_loom))"},
+            {"name": "E4 xnet", "path": "e4/", "serves_properties": ["C06", "C15", "C18"], "kind_free_text": "real-socket script/fault enumeration against the real binary (Python drivers, kernel scheduling uncontrolled)"},
             {"name": "E2 xseq", "path": "harness/src/verif/", "serves_properties": [p for p in CHECKS], "kind_free_text": "bounded-exhaustive operation-sequence / input-shape enumeration on the real code vs reference model"},
         ],
         "checks": checks,
